@@ -1045,6 +1045,74 @@ def part_mapped(ctx, cuqi, thorough):
                 ctx.fail(key + ":CUQIarray:per-sample", desc, short(repr(w2)), short(repr(CF)), "CUQIarray.parameters is not geometry.fun2par(imap(f))")
 
 
+
+# ----------------------------------------------------------------------------- part H: scipy's dst/idst ARE the sums of Props/C13_dst.lean
+def part_scipy_dst(ctx, cuqi, thorough):
+    """`dstII N x k = 2 Σ_{n<N} x n sin(π(k+1)(2n+1)/(2N))`,
+    `idstII N v n = (-1)^n v(N-1) + 2 Σ_{j<N-1} v j sin(π(2n+1)(j+1)/(2N))` — the transforms the DST inversion
+    theorem is about — against scipy.fftpack.dst/idst (defaults type=2, norm=None), and KLExpansion calling
+    exactly those with the defaults."""
+    import scipy.fftpack
+    import cuqi.geometry._geometry as gm
+    from cuqi.geometry import KLExpansion
+    rng = np.random.RandomState(ctx.seed + 1307)
+    key = "tie:scipy-dst:definition"
+    for N in range(1, (64 if thorough else 16) + 1):
+        n = np.arange(N)
+        Sd = 2.0 * np.sin(np.pi * np.outer(n + 1, 2 * n + 1) / (2 * N))                  # [k, n]
+        Si = 2.0 * np.sin(np.pi * np.outer(2 * n + 1, n[:N - 1] + 1) / (2 * N))          # [n, j], j < N-1
+        vecs = [rng.randn(N), ints(rng, (N,)), 1e3 * rng.rand(N)] + [np.eye(N)[i] for i in sorted({0, N // 2, N - 1})]
+        for x in vecs:
+            ctx.case("scipy-dst-definition", {"N": N, "x": short(x.tolist(), 80)}, nontrivial=N > 1)
+            tol = 1e-11 * N * max(1.0, float(np.abs(x).max()))
+            d_ref = Sd @ x
+            i_ref = (-1.0) ** n * x[N - 1] + Si @ x[:N - 1]
+            d, iv = scipy.fftpack.dst(x), scipy.fftpack.idst(x)
+            if d.shape != d_ref.shape or np.abs(d - d_ref).max() > tol:
+                ctx.disagree(key, {"N": N, "transform": "dst", "x": x.tolist()}, short(d_ref.tolist()), short(d.tolist()),
+                             "scipy.fftpack.dst is not the sum dstII of Props/C13_dst.lean: the inversion theorem no longer speaks about the transform the code calls")
+            if iv.shape != i_ref.shape or np.abs(iv - i_ref).max() > tol:
+                ctx.disagree(key, {"N": N, "transform": "idst", "x": x.tolist()}, short(i_ref.tolist()), short(iv.tolist()),
+                             "scipy.fftpack.idst is not the sum idstII of Props/C13_dst.lean")
+    # KLExpansion calls exactly these functions, with the default type / norm / axis
+    ckey = "tie:scipy-dst:call"
+    if gm.dst is not scipy.fftpack.dst or gm.idst is not scipy.fftpack.idst:
+        ctx.disagree(ckey, {"what": "names"}, "scipy.fftpack.dst/idst", f"{gm.dst!r} / {gm.idst!r}", "cuqi.geometry._geometry.dst/idst are not scipy.fftpack's")
+    rec = []
+    orig = (gm.dst, gm.idst)
+    def wrap(name, f):
+        def w(*a, **kw):
+            rec.append((name, len(a), dict(kw), np.shape(a[0]) if a else None))
+            return f(*a, **kw)
+        return w
+    cfgs = [(8, 3, None), (8, None, 2), (5, 5, 3), (1, None, None), (12, 1, 4)]
+    try:
+        gm.dst, gm.idst = wrap("dst", orig[0]), wrap("idst", orig[1])
+        for (N, nm, ns) in cfgs:
+            with quiet():
+                g = KLExpansion(np.linspace(0, 1, N), num_modes=nm)
+            m = g.par_dim
+            P = ints(rng, (m,) if ns is None else (m, ns))
+            F = ints(rng, (N,) if ns is None else (N, ns))
+            before = len(rec)
+            call(g.par2fun, P); call(g.fun2par, F)
+            calls = rec[before:]
+            desc = {"N": N, "num_modes": nm, "batch": ns, "calls": [(c[0], c[1], {k: str(v) for k, v in c[2].items()}, c[3]) for c in calls]}
+            ctx.case("scipy-dst-call", desc)
+            ok = [c[0] for c in calls] == ["idst", "dst"]
+            for (name, npos, kw, shp) in calls:
+                defaults = {"type": 2, "n": None, "axis": -1, "norm": None}
+                if npos != 1 or any(k not in defaults and k != "overwrite_x" for k in kw) or any(kw.get(k, v) != v for k, v in defaults.items()):
+                    ok = False
+                if shp is None or len(shp) != 2 or shp[-1] != N:      # transform along the last axis of (ns, N)
+                    ok = False
+            if not ok:
+                ctx.disagree(ckey, desc, "par2fun: one idst(x), fun2par: one dst(x); x of shape (ns, N); type=2, norm=None, axis=-1, n=None", str(desc["calls"]),
+                             "KLExpansion does not call scipy.fftpack.dst/idst with the defaults the theorem assumes")
+    finally:
+        gm.dst, gm.idst = orig
+
+
 # ----------------------------------------------------------------------------- entry
 def run(ctx):
     cuqi = import_cuqi()
@@ -1066,3 +1134,4 @@ def run(ctx):
     part_imgchk(ctx, thorough)
     part_reassign(ctx, cuqi, thorough)
     part_mapped(ctx, cuqi, thorough)
+    part_scipy_dst(ctx, cuqi, thorough)
